@@ -132,3 +132,19 @@ CLAIMED["C08"] = dict(
          "solution refers to binary trees keeping clades, names, colours and leaf data. Of the cone only Entry.update (the result entry fed by every refinement) is proved; the enumerator code is ete3-bound (copy, topology ids, Newick re-parsing) and outside the verifier's reach.",
     note="Trusted: the independent refinement generator and the C02/C03 oracles (standin/c08.py, standin/srec.py); stated bounds.",
 )
+
+CLAIMED["C13"] = dict(
+    text="Bounded (labelled exploration): layout.compute and tikz.render are run on 160 (2500 thorough) valid reconciliations drawn from an independent enumerator (random species mappings filtered by the parent-chain event model; "
+         "binary inputs <= 5 (10) object leaves, <= 5 species leaves), with and without synteny labels, vertical and horizontal, with a stub TeX measurer returning arbitrary positive sizes in the order of the nodes given. Checked: exactly one event "
+         "node per object node, in the species it is mapped to, of the kind of the documented event model; exactly one loss node per full loss the model counts, in the species where the loss occurs, its marker on that species' trunk on the side "
+         "of the child species that loses the copy; exactly one arrow per transfer, ending at the anchor of the transferred child; and the same counts in the generated text. PROVED: node_event (where the layout reads the kind from) equals the event model (C06 contract).",
+    note="Trusted: the event-model oracle (standin/render.py, standin/srec.py); the regular expressions that read the generated statements; stated bounds. Layout geometry in general is not examined (C14 n/a).",
+)
+CLAIMED["C15"] = dict(
+    text="Bounded (labelled exploration): the TikZ text of the same reconciliations, with random names containing underscores, backslashes and blanks, random nested colour annotations, syntenies up to 12 families and wrap widths 1-30, "
+         "is checked clause by clause: balanced braces, a single picture environment whose statements all start with a drawing command and end with ';', every colour defined before the picture, colour scoping (nearest coloured ancestor-or-self, "
+         "loss nodes coloured like the lost lineage, nothing else coloured), escaping, synteny labels listing exactly the families in order and omitted only when equal to the parent's, wrapped labels (every word kept, width respected unless a single word, "
+         "no more lines than greedy). balanced_wrap is additionally run exhaustively on all word lists <= 4 (5) words over five word lengths x eight widths. Nothing is discharged deductively for this property yet.",
+    note="Trusted: the text oracle (standin/render.py); an escaped backslash and the TeX line separator are the same two characters, so labels are matched against the expected text with blanks optionally replaced by the separator. "
+         "A genuine defect found here (nested colours) was repaired in /repo (fix: commit 259450a).",
+)
